@@ -22,7 +22,7 @@ META = {
 }
 
 TUS = ["src/gboost/early_stopping.cpp", "src/gboost/model.cpp", "src/gboost/result.cpp", "src/machine/result.cpp", "src/machine/stats.cpp",
-       "src/gboost/util.cpp"]
+       "src/gboost/util.cpp", "src/linear.cpp"]
 
 
 def rule_early_stopping(F, R):
@@ -172,7 +172,7 @@ def rule_fold_average(F, R):
             "bias scaled by %s, learners scaled consistently: %s" % (pp(assignment(bias_scale[0])[1]) if bias_scale else None, okw))
 
 
-def rule_slots(F, R):
+def rule_slots(F, R, rule="R-C11-5", with_evaluate=True):
     fs = [f for f in F.in_file("src/machine/result.cpp") if f.cls == "nano::ml::result_t"]
     by = {}
     for f in fs:
@@ -192,8 +192,8 @@ def rule_slots(F, R):
                 continue
             ex = slot_exprs(f, member)
             n += 1
-            R.check(ex == [want], "R-C11-5", "%s slot" % name, f.loc(), "slot index is trial * folds() + fold", "%s addresses %s with %s" % (name, member, ex))
-    R.floor("R-C11-5", n, 3, "slot accessors")
+            R.check(ex == [want], rule, "%s slot" % name, f.loc(), "slot index is trial * folds() + fold", "%s addresses %s with %s" % (name, member, ex))
+    R.floor(rule, n, 3, "slot accessors")
     # tensor coordinates: store vs stats
     st = [f for f in by.get("store", []) if any(p["n"] == "trial" for p in f.params)]
     ss = [f for f in by.get("stats", []) if any(p["n"] == "trial" for p in f.params)]
@@ -206,18 +206,181 @@ def rule_slots(F, R):
         coords[src] = dst
     exp = {"train_errors_losses.tensor(0)": "m_values.tensor(trial, fold, 0, 0)", "train_errors_losses.tensor(1)": "m_values.tensor(trial, fold, 0, 1)",
            "valid_errors_losses.tensor(0)": "m_values.tensor(trial, fold, 1, 0)", "valid_errors_losses.tensor(1)": "m_values.tensor(trial, fold, 1, 1)"}
-    R.check(coords == exp, "R-C11-5", "store coordinates", st[0].loc(), "(train|valid, errors|losses) stored at (trial, fold, 0|1, 0|1)", "stored as %s" % coords)
+    R.check(coords == exp, rule, "store coordinates", st[0].loc(), "(train|valid, errors|losses) stored at (trial, fold, 0|1, 0|1)", "stored as %s" % coords)
     f = ss[0]
     vars_ = {v["n"]: pp(v["c"][0]) for v in f.nodes() if v["k"] == "var" and v.get("c")}
     ld = [c for c in f.calls(lambda x: callee(x).endswith("load_stats"))]
     okl = len(ld) == 1 and pp(args(ld[0])[0]) == "m_values.tensor(trial, fold, isplit, ivalue)" and \
         vars_.get("isplit") == "((split == nano::ml::split_type::train) ? 0 : 1)" and vars_.get("ivalue") == "((value == nano::ml::value_type::errors) ? 0 : 1)"
-    R.check(okl, "R-C11-5", "stats coordinates", f.loc(), "train/errors map to index 0, valid/losses to index 1 as in store()", "stats() reads %s with %s" % (pp(args(ld[0])[0]) if ld else None, vars_))
+    R.check(okl, rule, "stats coordinates", f.loc(), "train/errors map to index 0, valid/losses to index 1 as in store()", "stats() reads %s with %s" % (pp(args(ld[0])[0]) if ld else None, vars_))
+    if not with_evaluate:
+        return
     # errors are row 0 and losses row 1 of the (2, samples) buffers
     ev = F.one("nano::gboost::evaluate", "src/gboost/util.cpp")
     txt = " ".join(pp(c) for _, g in F.lambdas_in(ev) for c in g.calls(lambda x: callee(x).startswith("nano::loss_t::")))
-    R.check("loss.error(" in txt and "values.tensor(0)" in txt.split("loss.value(")[0] and "values.tensor(1)" in txt.split("loss.value(")[-1], "R-C11-5", "errors row 0 / losses row 1",
+    R.check("loss.error(" in txt and "values.tensor(0)" in txt.split("loss.value(")[0] and "values.tensor(1)" in txt.split("loss.value(")[-1], rule, "errors row 0 / losses row 1",
             ev.loc(), "evaluate() writes errors to row 0 and losses to row 1", "evaluate() row convention changed: " + txt[:200])
+
+
+def rule_fold_stats(F, R):
+    """R-C11-7 (folds): the tuning callbacks return (statistics on the training samples, statistics on the validation samples, model), each
+    computed over the corresponding sample list the callback was given"""
+    def indices_params(g):
+        return [p for p in g.params if "long, 1>" in (p.get("t") or "")]
+
+    def tuple_args(g):
+        rets = [x for x in g.nodes() if x["k"] == "return" and x.get("c")]
+        if len(rets) != 1:
+            return None
+        c = skip(rets[0]["c"][0])
+        if c["k"] == "call" and callee(c) == "std::make_tuple":
+            return args(c)
+        return None
+
+    def prov_simple(g, node, depth=0):
+        x = skip(node)
+        if x is None or depth > 6:
+            return None
+        if x["k"] == "call":
+            q, a = callee(x), args(x)
+            if q in ("std::move", "std::forward") and a:
+                return prov_simple(g, a[0], depth + 1)
+            if q.split("::")[-1] in ("selected", "evaluate"):
+                idx = [z for z in a if "long, 1>" in ((skip(z) or {}).get("t") or "")]
+                return ref_decl(idx[-1]) if idx else None
+            return None
+        if x["k"] == "construct" and len(x.get("c", ())) == 1:
+            return prov_simple(g, x["c"][0], depth + 1)
+        if x["k"] == "ref":
+            var, bi = find_var(g, x["d"])
+            if var is not None and bi is None and var.get("c"):
+                return prov_simple(g, var["c"][0], depth + 1)
+            return ("binding", var["d"], bi) if var is not None and bi is not None else x["d"]
+        return None
+    m = 0
+    # gboost: the per-fold fit returns (model, train statistics, validation statistics)
+    gf = [g for g in F.in_file("src/gboost/model.cpp") if g.name == "fit" and not g.cls and not g.is_lambda and len(indices_params(g)) == 2]
+    inner_ok = None
+    if gf:
+        g = gf[0]
+        ta = tuple_args(g)
+        ip = indices_params(g)
+        inner_ok = ta is not None and len(ta) == 3 and prov_simple(g, ta[1]) == ip[0]["d"] and prov_simple(g, ta[2]) == ip[1]["d"]
+        m += 1
+        R.check(bool(inner_ok), "R-C11-7", "gboost fold statistics", g.loc(), "the fold fit returns (model, statistics over its training samples, statistics over its validation samples)",
+                "the per-fold fit does not return the statistics selected by (train_samples, valid_samples) in that order")
+    for qn, file in (("nano::gboost_model_t::fit", "src/gboost/model.cpp"), ("nano::linear_t::fit", "src/linear.cpp")):
+        f = [x for x in F.fn(qn, file) if not x.is_lambda][0]
+        cbs = [g for _, g in F.lambdas_in(f) if len(indices_params(g)) == 2 and len(g.params) == 5]
+        if len(cbs) != 1:
+            raise AnalysisBroken("%s: the tuning callback was not found" % qn)
+        g = cbs[0]
+        ip = indices_params(g)
+        ta = tuple_args(g)
+        m += 1
+        ok = ta is not None and len(ta) == 3
+        why = "the callback does not return a (train, valid, model) tuple"
+        if ok:
+            p0, p1 = prov_simple(g, ta[0]), prov_simple(g, ta[1])
+            if isinstance(p0, tuple) or isinstance(p1, tuple):
+                # structured bindings of the fold fit's result: element k of its tuple, called with (.., train_samples, valid_samples, ..) in order
+                call = [c for c in g.calls(lambda c: callee(c).split("::")[-1] == "fit")]
+                okc = len(call) == 1 and [ref_decl(z) for z in args(call[0]) if "long, 1>" in ((skip(z) or {}).get("t") or "")] == [ip[0]["d"], ip[1]["d"]]
+                ok = bool(inner_ok) and okc and isinstance(p0, tuple) and isinstance(p1, tuple) and (p0[2], p1[2]) == (1, 2)
+                why = "the callback does not hand back (training statistics, validation statistics) of the fold fit called with (train_samples, valid_samples)"
+            else:
+                ok = p0 == ip[0]["d"] and p1 == ip[1]["d"]
+                why = "the callback's first/second results are not computed over its training/validation samples"
+        R.check(bool(ok), "R-C11-7", "%s callback statistics" % qn.split("::")[1], g.loc(), "(train statistics, validation statistics, model), each over the matching sample list", why)
+    R.floor("R-C11-7/folds", m, 3, "fold statistics producers")
+
+
+def rule_final_stats(F, R):
+    """R-C11-7: the final statistics handed to result_t::store(values[, extra]) are computed over exactly the samples fit() was given"""
+    n = 0
+    for qn, file in (("nano::gboost_model_t::fit", "src/gboost/model.cpp"), ("nano::linear_t::fit", "src/linear.cpp")):
+        fs = [f for f in F.fn(qn, file) if not f.is_lambda and len(f.params) == 4]
+        if not fs:
+            raise AnalysisBroken("%s not found" % qn)
+        f = fs[0]
+        sp_ = [p for p in f.params if "long, 1>" in (p.get("t") or "")]
+        if len(sp_) != 1:
+            raise AnalysisBroken("%s: the samples parameter was not found" % qn)
+        SAMPLES = sp_[0]["d"]
+
+        def is_indices(node):
+            t = (skip(node) or {}).get("t") or ""
+            return "long, 1>" in t
+
+        def prov(node, depth=0):
+            """declaration of the index set over which the statistics in `node` were computed (None: unknown)"""
+            x = skip(node)
+            if x is None or depth > 8:
+                return None
+            if x["k"] == "call":
+                q = callee(x)
+                a = args(x)
+                if q in ("std::move", "std::forward") and a:
+                    return prov(a[0], depth + 1)
+                if q.split("::")[-1] == "selected" and len(a) == 2:
+                    return ref_decl(a[1])
+                if q.split("::")[-1] == "evaluate":
+                    idx = [z for z in a if is_indices(z)]
+                    if len(idx) == 1:
+                        return ref_decl(idx[0])
+                return None
+            if x["k"] == "construct" and len(x.get("c", ())) == 1:
+                return prov(x["c"][0], depth + 1)
+            if x["k"] == "ref":
+                d = x["d"]
+                if d == SAMPLES:
+                    return d
+                var, _ = find_var(f, d)
+                if var is None:
+                    return None
+                if var.get("c"):
+                    p0 = prov(var["c"][0], depth + 1)
+                    if p0 is not None:
+                        return p0
+                # a buffer filled by evaluate(iterator, ..., buffer): the iterator's samples
+                for c in f.calls(lambda c: callee(c).split("::")[-1] == "evaluate"):
+                    if any(ref_decl(z) == d for z in args(c)):
+                        for z in args(c):
+                            zv, _ = find_var(f, ref_decl(z)) if ref_decl(z) is not None else (None, None)
+                            if zv is not None and "iterator_t" in (zv.get("t") or "") and zv.get("c"):
+                                init = skip(zv["c"][0])
+                                if init["k"] == "construct":
+                                    idx = [w for w in init.get("c", ()) if is_indices(w)]
+                                    if len(idx) == 1:
+                                        return ref_decl(idx[0])
+                return None
+            return None
+        stores = [c for c in f.calls(lambda c: callee(c) == "nano::ml::result_t::store" and len(args(c)) in (1, 2))]
+        for c in stores:
+            n += 1
+            d = prov(args(c)[0])
+            inst = "%s final statistics" % qn.split("::")[1]
+            if d is None:
+                R.incomplete("R-C11-7", inst, f.loc(c), "cannot trace the samples the final statistics were computed on: %s" % pp(args(c)[0])[:60])
+                continue
+            var, _ = find_var(f, d)
+            name = var["n"] if var is not None else next((p["n"] for p in f.params if p["d"] == d), "?")
+            R.check(d == SAMPLES, "R-C11-7", inst, f.loc(c), "the final error/loss statistics are computed on the samples given to fit()",
+                    "the final statistics are computed over `%s`%s, not over the samples given to fit(): the reported statistics differ from those recomputed on the fitted samples" % (
+                        name, (" = " + pp(var["c"][0])[:50]) if var is not None and var.get("c") else ""))
+    R.floor("R-C11-7", n, 2, "final result_t::store calls")
+    rule_fold_stats(F, R)
+    # the gather helper selects both rows by the same index set
+    sel = [g for g in F.in_file("src/gboost/model.cpp") if g.name == "selected" and len(g.params) == 2]
+    for g in sel[:1]:
+        vn, sn = g.params[0]["n"], g.params[1]["n"]
+        calls = [pp(c) for c in g.calls(lambda c: callee(c).split("::")[-1] == "indexed")]
+        rets = [x for x in g.nodes() if x["k"] == "return" and x.get("c")]
+        rv, _ = find_var(g, ref_decl(rets[0]["c"][0])) if rets and ref_decl(rets[0]["c"][0]) is not None else (None, None)
+        rn = rv["n"] if rv is not None else "?"
+        ok = sorted(c.replace("<double>", "") for c in calls) == ["%s.tensor(0).indexed(%s, %s.tensor(0))" % (vn, sn, rn), "%s.tensor(1).indexed(%s, %s.tensor(1))" % (vn, sn, rn)]
+        R.check(ok, "R-C11-7", "selected()", g.loc(), "both rows (errors, losses) are gathered by the same sample list", "selected() no longer gathers both rows by the given samples: %s" % calls)
+    R.floor("R-C11-7/selected", len(sel), 1, "gather helper")
 
 
 def run(ctx):
@@ -227,4 +390,5 @@ def run(ctx):
     rule_fit(F, R)
     rule_fold_average(F, R)
     rule_slots(F, R)
+    rule_final_stats(F, R)
     c11_stats.rule_stats_table(F, R, "R-C11-6")
